@@ -3,6 +3,7 @@ package c14
 
 import (
 	"fmt"
+	"sort"
 	"strings"
 	"testing"
 
@@ -457,8 +458,18 @@ func TestOrderingsAndMalformedRules(t *testing.T) {
 			exec  []config.MechanismConfig
 		)
 
+		kinds := make([]string, n)
+		for i := range kinds {
+			kinds[i] = rapid.SampledFrom([]string{"authenticator", "authenticator", "authorizer", "contextualizer", "finalizer", "finalizer"}).Draw(t, "kind")
+		}
+
+		if rapid.IntRange(0, 9).Draw(t, "ordered") < 6 {
+			rank := map[string]int{"authenticator": 0, "authorizer": 1, "contextualizer": 1, "finalizer": 2}
+			sort.SliceStable(kinds, func(i, j int) bool { return rank[kinds[i]] < rank[kinds[j]] })
+		}
+
 		for i := 0; i < n; i++ {
-			kind := rapid.SampledFrom([]string{"authenticator", "authenticator", "authorizer", "contextualizer", "finalizer", "finalizer"}).Draw(t, "kind")
+			kind := kinds[i]
 			counters[kind]++
 
 			if counters[kind] > 2 {
@@ -468,7 +479,7 @@ func TestOrderingsAndMalformedRules(t *testing.T) {
 			prefix := map[string]string{"authenticator": "r_a", "authorizer": "r_z", "contextualizer": "r_c", "finalizer": "r_f"}[kind]
 			st := stepRef{Kind: kind, ID: fmt.Sprintf("%s%d", prefix, counters[kind])}
 
-			switch rapid.IntRange(0, 11).Draw(t, "defect") {
+			switch rapid.IntRange(0, 23).Draw(t, "defect") {
 			case 0:
 				st.Unknown = true
 				st.ID = "no_such_mechanism"
